@@ -41,6 +41,9 @@ pub struct Env {
     pub hostname: Option<String>,
     #[serde(default)]
     pub uid: Option<u32>,
+    /// extra command-line arguments of the host process, as a compiler would have them
+    #[serde(default)]
+    pub args: Vec<String>,
 }
 
 impl Env {
@@ -58,6 +61,7 @@ impl Env {
             host: None,
             hostname: None,
             uid: None,
+            args: vec![],
         }
     }
 }
@@ -81,6 +85,8 @@ pub struct Ctx {
     /// private directories handed to child processes as TMPDIR / HOME / cwd live under here
     pub tmp_root: String,
     pub counter: std::sync::atomic::AtomicU64,
+    /// another build of the same sources (other cargo profile) that computes the references, if given
+    pub ref_exe: Option<String>,
 }
 
 /// What the environment shim saw the child ask for after start-up.
@@ -163,39 +169,55 @@ pub fn run_child(ctx: &Ctx, env: &Env, sched: &Schedule, durable: &Durable) -> R
             std::fs::write(&path, crate::envmodel::MANIFESTS[*idx % crate::envmodel::MANIFESTS.len()]).map_err(|e| format!("write {rel}: {e}"))?;
         }
     }
-    let mut cmd = Command::new(&argv[0]);
-    cmd.args(&argv[1..]);
-    cmd.arg("session");
-    cmd.env_clear();
-    cmd.env("PATH", "/usr/bin:/bin");
-    cmd.env("LD_PRELOAD", &ctx.shim);
-    cmd.env("VERIF_SHIM_REPORT", "1");
-    cmd.env("VERIF_ENTROPY_SEED", env.entropy_seed.to_string());
+    // The environment block is built by `env -i K=V ..` in exactly the order given here (Rust's `Command`
+    // would sort it): fixed variables first, then the seeded ones in their seeded order.
+    let mut vars: Vec<(String, String)> = vec![
+        ("PATH".into(), "/usr/bin:/bin".into()),
+        ("LD_PRELOAD".into(), ctx.shim.clone()),
+        ("VERIF_SHIM_REPORT".into(), "1".into()),
+        ("VERIF_ENTROPY_SEED".into(), env.entropy_seed.to_string()),
+    ];
     if let Some(c) = env.clock_base {
-        cmd.env("VERIF_CLOCK_BASE", c.to_string());
+        vars.push(("VERIF_CLOCK_BASE".into(), c.to_string()));
     }
     if let Some(p) = env.fake_pid {
-        cmd.env("VERIF_FAKE_PID", p.to_string());
+        vars.push(("VERIF_FAKE_PID".into(), p.to_string()));
     }
     if let Some(h) = &env.hostname {
-        cmd.env("VERIF_HOSTNAME", h);
+        vars.push(("VERIF_HOSTNAME".into(), h.clone()));
     }
     if let Some(u) = env.uid {
-        cmd.env("VERIF_FAKE_UID", u.to_string());
+        vars.push(("VERIF_FAKE_UID".into(), u.to_string()));
     }
     // the only durable state: one private directory (same length of path for every process of a run)
-    cmd.env("TMPDIR", &durable.path);
-    cmd.env("HOME", &durable.path);
-    cmd.env("XDG_CACHE_HOME", &durable.path);
+    let dp = durable.path.to_string_lossy().to_string();
+    vars.push(("TMPDIR".into(), dp.clone()));
+    vars.push(("HOME".into(), dp.clone()));
+    vars.push(("XDG_CACHE_HOME".into(), dp.clone()));
     for (k, v) in &env.junk {
-        cmd.env(k, v);
+        if k == "CARGO_MANIFEST_DIR" || k == "CARGO_MANIFEST_PATH" {
+            continue;
+        }
+        vars.retain(|(n, _)| n != k || n == "PATH" || n == "LD_PRELOAD" || n.starts_with("VERIF_") && n != "VERIF_PAD");
+        if !vars.iter().any(|(n, _)| n == k) {
+            vars.push((k.clone(), v.clone()));
+        }
     }
     if let Some(md) = &env.manifest_dir {
         let d = durable.path.join(md);
         std::fs::create_dir_all(&d).map_err(|e| format!("manifest dir: {e}"))?;
-        cmd.env("CARGO_MANIFEST_DIR", &d);
-        cmd.env("CARGO_MANIFEST_PATH", d.join("Cargo.toml"));
+        vars.push(("CARGO_MANIFEST_DIR".into(), d.to_string_lossy().to_string()));
+        vars.push(("CARGO_MANIFEST_PATH".into(), d.join("Cargo.toml").to_string_lossy().to_string()));
     }
+    let mut cmd = Command::new("env");
+    cmd.arg("-i");
+    for (k, v) in &vars {
+        cmd.arg(format!("{k}={v}"));
+    }
+    cmd.args(&argv);
+    cmd.arg("session");
+    cmd.args(&env.args);
+    cmd.env_clear();
     let cwd = match &env.cwd {
         Some(sub) => {
             let d = durable.path.join(sub);
@@ -265,7 +287,19 @@ pub fn reference(ctx: &Ctx, key: &Key, dump: bool) -> Result<(RefObs, Option<Str
         dump_text: dump,
     };
     let dur = Durable::new(ctx, "ref");
-    let out = run_child(ctx, &Env::pristine(), &sched, &dur)?;
+    let out = match &ctx.ref_exe {
+        Some(exe) => {
+            let alt = Ctx {
+                exe: exe.clone(),
+                shim: ctx.shim.clone(),
+                tmp_root: ctx.tmp_root.clone(),
+                counter: std::sync::atomic::AtomicU64::new(0),
+                ref_exe: None,
+            };
+            run_child(&alt, &Env::pristine(), &sched, &dur)?
+        }
+        None => run_child(ctx, &Env::pristine(), &sched, &dur)?,
+    };
     let o = &out.obs[0];
     Ok((
         RefObs {
@@ -353,6 +387,25 @@ fn gen_env(r: &mut Rng, discovered: &[(String, Vec<String>)]) -> Env {
         host: if r.chance(1, 3) { Some(r.pick(crate::envmodel::HOSTS).to_string()) } else { None },
         hostname: if r.chance(1, 3) { Some(r.pick(&["build-7", "ci-runner-03.example.org", "localhost", "x"]).to_string()) } else { None },
         uid: if r.chance(1, 3) { Some(*r.pick(&[0u32, 1000, 1001, 65534])) } else { None },
+        args: if r.chance(1, 3) {
+            let mut a: Vec<String> = vec!["--crate-name".into(), r.pick(&["demo", "my_crate", "build_script_build"]).to_string()];
+            a.push(format!("--edition={}", r.pick(&["2015", "2018", "2021", "2024"])));
+            if r.chance(1, 2) {
+                a.extend(["-C".to_string(), format!("opt-level={}", r.pick(&["0", "3", "s"]))]);
+            }
+            if r.chance(1, 2) {
+                a.extend(["--cfg".to_string(), "feature=\"std\"".to_string()]);
+            }
+            if r.chance(1, 2) {
+                a.extend(["--error-format=json".to_string(), "--json=diagnostic-rendered-ansi".to_string()]);
+            }
+            if r.chance(1, 3) {
+                a.push("--test".to_string());
+            }
+            a
+        } else {
+            vec![]
+        },
     }
 }
 
@@ -860,6 +913,9 @@ pub struct Replay {
     pub observed_text: Option<String>,
     pub minimise_steps: usize,
     pub original_requests: usize,
+    /// build of the same sources that computed the reference, when it was not the session's own
+    #[serde(default)]
+    pub ref_exe: Option<String>,
 }
 
 /// Does the last request of `sched` (the probe) diverge from the pristine reference, when run after
@@ -1010,6 +1066,9 @@ pub fn minimise(ctx: &Ctx, refs: &RefCache, d: &Divergence, s: &Session, seed: u
     e.hostname = None;
     try_env(e, &mut env_min, &mut steps);
     let mut e = env_min.clone();
+    e.args.clear();
+    try_env(e, &mut env_min, &mut steps);
+    let mut e = env_min.clone();
     e.uid = None;
     try_env(e, &mut env_min, &mut steps);
     let mut e = env_min.clone();
@@ -1078,6 +1137,7 @@ pub fn minimise(ctx: &Ctx, refs: &RefCache, d: &Divergence, s: &Session, seed: u
         observed_text: ot,
         minimise_steps: steps,
         original_requests: original,
+        ref_exe: ctx.ref_exe.clone(),
     }
 }
 
